@@ -139,6 +139,13 @@ func build(extraFile, extraCat string) *model {
 	mPres := st(m, mainf, "struct", "MPreservedByComment", fld(1, "v", i32))
 	m.comment[mPres] = "// @preserve"
 	st(m, mainf, "struct", "MPreservedByList", fld(1, "v", i32))
+	// an exception and a union kept only by their @preserve comment, each with a member struct reachable through it alone
+	mPresXOnly := st(m, mainf, "struct", "MPresXOnly", fld(1, "v", i32))
+	mPresX := st(m, mainf, "exception", "MPreservedX", fld(1, "d", idl.StructT(mPresXOnly)), fld(2, "m", str))
+	m.comment[mPresX] = "// @preserve"
+	mPresUOnly := st(m, mainf, "struct", "MPresUOnly", fld(1, "v", i32))
+	mPresU := st(m, mainf, "union", "MPreservedU", fld(1, "d", idl.ListOf(idl.StructT(mPresUOnly))), fld(2, "n", i32))
+	m.comment[mPresU] = "// @preserve"
 	mSelf := st(m, mainf, "struct", "MSelf", fld(1, "v", i32))
 	mSelf.Fields = append(mSelf.Fields, &idl.Field{ID: 2, ExplicitID: true, Name: "next", Type: idl.StructT(mSelf), Req: idl.ReqOptional})
 	mainSvc := &idl.Service{Name: "Main", Extends: cBase, Functions: []*idl.Function{
@@ -165,7 +172,7 @@ func (m *model) texts() map[string]string {
 		t := idl.Render(f)
 		for s, cmt := range m.comment {
 			if s.File == f {
-				t = strings.Replace(t, "\nstruct "+s.Name+" ", "\n"+cmt+"\nstruct "+s.Name+" ", 1)
+				t = strings.Replace(t, "\n"+s.Cat+" "+s.Name+" ", "\n"+cmt+"\n"+s.Cat+" "+s.Name+" ", 1)
 			}
 		}
 		out[f.Path] = t
